@@ -35,6 +35,8 @@ class C19(Prop):
   ]
   rule = ('stubbed: projection status 0..9 x success T/F and line status 0..9 x success T/F on {leaf, tree, tree with MF}, flat / device-shaped start, step sizes > 0; '
           'real: convex leaves / trees (single- and multi-row), random feasible starts flat and device-shaped, prices of all shapes, step sizes 1/8..4, 1-4 repeated steps; '
+          'integer-typed starts (int ndarray / list of ints); histories step -> leaf setter (bounds, cbounds, cost parameter) -> step on the same tree compared with a fresh twin; '
+          'sub-balanced sets (eq / ineq, sign +1 / -1) with the balance active; a raise from a feasible start is compared with a reference projection; '
           'two targeted families: "overshoot" (slots on a bound with the gradient pointing outward next to slots with stepsize x curvature > 2, step sizes 1/2/4) and '
           '"face" (a cumulative / aggregate bound active together with the box, raw step leaving the box in every slot); '
           'non-trivial: the start is not first-order optimal (projected-gradient residual > 1e-3)')
@@ -161,12 +163,49 @@ class C19(Prop):
     return {'kind': 'real', 'family': 'face', 'model': m, 'p': [C.fs(x) for x in prices], 'sshape': rng.choice(['flat', 'dev']),
             'stepsize': C.fs(alpha), 'seed': 0, 'start': st, 'repeat': rng.choice([1, 2, 3])}
 
+  def balance_case(self, rng, tier):
+    """a SubBalancedDeviceSet whose labelled flows must balance (`eq`) or stay on one side (`ineq`, sign +1 / -1), with
+    prices that push against the balance so that it is active for the projected gradient step."""
+    n = rng.randint(1, 3)
+    L = lambda v: [C.fs(v)]*n
+    hi = C.dy(rng, 1, 3); cap = C.dy(rng, 1, 3)
+    load = G.convex_leaf(rng, tier, n, [rng.choice(['Device', 'IDevice2', 'CDevice'])], with_cbounds=False)
+    load['lb'] = L(0); load['hb'] = L(hi); load['_py']['bform'] = 'table'
+    if load['cls'] == 'IDevice2':
+      load['prm'] = {'p_l': '-1/2', 'p_h': '-1/4'}
+    g = G.convex_leaf(rng, tier, n, ['Device'], with_cbounds=False)
+    g['lb'] = L(-cap); g['hb'] = L(0); g['_py']['bform'] = 'table'
+    kids = [{'k': 'leaf', 'id': 'la', 'dev': load}, {'k': 'leaf', 'id': 'ga', 'dev': g}]
+    rows = [[C.fs(-C.dy(rng, 1, 3))]*n, [C.fs(-C.dy(rng, 0.25, 0.75, 2))]*n]
+    if rng.random() < 0.5:
+      z = G.convex_leaf(rng, tier, n, ['Device', 'IDevice2'], with_cbounds=False)
+      kids.append({'k': 'leaf', 'id': 'z', 'dev': z}); rows.append([C.fs(C.dy(rng, -1, 1, 2))]*n)
+    ctype = rng.choice(['ineq', 'ineq', 'eq'])
+    sign = rng.choice(['-1', '-1', '1'])
+    if ctype == 'ineq' and sign == '1':       # sum >= 0: make consuming costly and generating paid, so the set wants sum < 0
+      rows[0] = [C.fs(C.dy(rng, 0.25, 0.75, 2))]*n; rows[1] = [C.fs(C.dy(rng, 1, 3))]*n
+    t = {'k': 'node', 'id': 'site', 'sb': None, 'ch': kids, 'sub': True, 'labels': ['a'], 'ctype': ctype, 'sign': sign, 'rem': False}
+    if rng.random() < 0.4:                    # the labelled rows inside an inner plain set
+      t['ch'] = [{'k': 'node', 'id': 'inner', 'sb': None, 'sub': False, 'ch': kids[:2]}] + kids[2:]
+    return {'kind': 'real', 'family': 'balance', 'model': {'tree': t, 'n': n}, 'p': rows, 'sshape': rng.choice(['flat', 'dev']),
+            'stepsize': rng.choice(['1', '2', '1/2']), 'seed': rng.randrange(1 << 30), 'repeat': rng.choice([1, 2, 3])}
+
   def real_case(self, rng, tier):
     r = rng.random()
-    if r < 0.2:
+    if r < 0.08:
+      return self.balance_case(rng, tier)
+    if r < 0.18:
       return self.overshoot_case(rng, tier)
-    if r < 0.35:
+    if r < 0.31:
       return self.face_case(rng, tier)
+    if r < 0.41:       # integer-typed feasible start (an int ndarray or a plain list of ints), moderate |stepsize * gradient| < 1
+      m, flow, price = G.int_model(rng, tier)
+      return {'kind': 'real', 'family': 'int-start', 'model': m, 'p': price, 'sshape': rng.choice(['flat', 'dev']), 'stepsize': rng.choice(['1', '1/2', '1']),
+              'seed': 0, 'start': flow, 'sdtype': 'int', 'slist': rng.random() < 0.3, 'repeat': rng.choice([1, 2, 3])}
+    if r < 0.51:       # step, re-rate a leaf through its public setters, step the SAME tree again: compared with a fresh twin
+      m, edit = G.history_model(rng, tier)
+      return {'kind': 'history', 'model': m, 'edit': edit, 'p': G.gen_price(rng, G.model_rows(m), m['n']), 'first': rng.choice(['step', 'step', 'touch']),
+              'stepsize': C.fs(C.dy(rng, 0.5, 4, 2)), 'seed': rng.randrange(1 << 30), 'sshape': rng.choice(['flat', 'dev'])}
     for _ in range(6):        # a feasible model (LP over the implementation's polytope); starts are drawn inside it
       m = G.random_model(rng, tier)
       R, n = G.model_rows(m), m['n']
@@ -205,6 +244,21 @@ class C19(Prop):
             out.append(self.stub_case(rng, tier, mkind, 0, True, st, ok))
         out.append(self.stub_case(rng, tier, mkind, 8, False, 8, False))
         out.append(self.stub_case(rng, tier, mkind, 4, False, 9, False))
+    for _ in range(6*reps):     # stubbed step after an earlier use of the tree and a leaf re-rating; integer-typed start
+      m, edit = G.history_model(rng, tier)
+      c = self.stub_case(rng, tier, 'leaf', 0, True, 0, True)
+      R, n = G.model_rows(m), m['n']
+      m2 = G.edited_model(m, edit)
+      c.update({'model': m, 'edit': edit, 'p': G.gen_price(rng, R, n), 's': G.dyadic_flow(rng, m2), 'probe': G.dyadic_flow(rng, m2)})
+      c['res_proj']['x'] = [C.fs(C.dy(rng, -4, 4, 3)) for _ in range(R*n)]
+      out.append(c)
+    for _ in range(4*reps):
+      m, flow, price = G.int_model(rng, tier)
+      c = self.stub_case(rng, tier, 'leaf', 0, True, 0, True)
+      R, n = G.model_rows(m), m['n']
+      c.update({'model': m, 'p': price, 's': flow, 'sdtype': 'int', 'probe': G.dyadic_flow(rng, m), 'stepsize': rng.choice(['1/2', '1', '3/4'])})
+      c['res_proj']['x'] = [C.fs(C.dy(rng, -4, 4, 3)) for _ in range(R*n)]
+      out.append(c)
     for _ in range(count):
       out.append(self.real_case(rng, tier))
     return out
@@ -216,8 +270,11 @@ class C19(Prop):
     G.quiet()
     m = case['model']
     dev = G.build_model(m)
+    if case.get('edit'):
+      G.touch(dev)
+      G.apply_edit(dev, case['edit'])
     p = G.price_arg(case['p'])
-    s = G.flow_arg(case['s'], m, case['sshape'])
+    s = G.int_flow_arg(case['s'], m, case['sshape']) if case.get('sdtype') == 'int' else G.flow_arg(case['s'], m, case['sshape'])
     fp, fl = G.fake_result(case['res_proj']), G.fake_result(case['res_line'])
     rec = {}
     probes = {'proj': [C.pf(v) for v in case['probe']], 'line': [C.pf(case['tprobe'])]}
@@ -258,7 +315,7 @@ class C19(Prop):
   def ops(self, case):
     if case['kind'] != 'stub':
       return []
-    m = case['model']
+    m = G.edited_model(case['model'], case['edit']) if case.get('edit') else case['model']
     base = {'tree': m['tree'], 'n': m['n'], 'P': case['p'], 's': case['s'], 'stepsize': case['stepsize'],
             'res_proj': case['res_proj'], 'res_line': case['res_line']}
     memo = {}
@@ -284,7 +341,79 @@ class C19(Prop):
 
   # ------------------------------------------------------------------ oracle
   def oracle(self, case):
+    if case['kind'] == 'history':
+      return self.oracle_history(case)
     return self.oracle_stub(case) if case['kind'] == 'stub' else self.oracle_real(case)
+
+  def oracle_history(self, case):
+    """step (or merely read the tree), re-rate a leaf through its public setters, step the SAME tree from a flow feasible for the
+    re-rated tree; judged against a fresh twin built from the final parameters: feasible for the twin and equal to the twin's step."""
+    n_ = np()
+    S = G.solve_module(); G.quiet()
+    m, edit = case['model'], case['edit']
+    m2 = G.edited_model(m, edit)
+    dev, twin = G.build_model(m), G.build_model(m2)
+    R, n = G.model_rows(m), m['n']
+    N = R*n
+    base = {'classes': sorted(set(l['dev']['cls'] for l in G.all_leaves(m['tree']))), 'mf': False, 'rows': R, 'first': case['first'], 'sshape': case['sshape']}
+    if not (SG.safe_to_solve(dev) and SG.safe_to_solve(twin)):
+      self.ev['scipy_unsafe_skipped'] += 1
+      return []
+    poly2 = G.polytope(twin, N)
+    box2 = G.model_box(m2)
+    if not poly2[4]:
+      return []
+    s = G.feasible_start(twin, N, poly2, case['seed'])
+    if s is None or G.violation(twin, s, m2)[0] > 1e-9:
+      self.ev['no_feasible_start'] += 1
+      return []
+    p = G.price_arg(case['p']); alpha = C.pf(case['stepsize'])
+    self.ev['histories'] = self.ev.get('histories', 0) + 1
+    where = 'tree %s, price %s, stepsize %s, first call: %s, then leaf %s re-rated to bounds %s / %s%s%s, start %s (%s)' % (
+      base['classes'], case['p'], case['stepsize'], case['first'], edit['leaf'], edit['lb'], edit['hb'],
+      (', cbounds %s' % edit['cbs']) if 'cbs' in edit else '', (', a=%s' % edit['a']) if 'a' in edit else '', s.round(6).tolist(), case['sshape'])
+    def run(d, start):
+      arg = start.reshape(R, n) if case['sshape'] == 'dev' else start.copy()
+      try:
+        s1, o = S.step(d, p, arg, alpha)
+        return ('ok', n_.array(s1, dtype=float))
+      except S.OptimizationException:
+        return ('raise', None)
+    try:
+      if case['first'] == 'step':
+        poly1 = G.polytope(dev, N)
+        s_old = G.feasible_start(dev, N, poly1, case['seed']) if poly1[4] else None
+        if s_old is not None:
+          run(dev, s_old)
+        else:
+          G.touch(dev)
+      else:
+        G.touch(dev)
+      G.apply_edit(dev, edit)
+      r1 = run(dev, s)
+      r2 = run(twin, s)
+    except Exception as e:
+      return [{'key': dict(base, kind='wrong-exception', exc=type(e).__name__), 'detail': '%s: %s in a step / re-rate / step history; %s' % (type(e).__name__, str(e)[:120], where)}]
+    if r1[0] != r2[0]:
+      return [{'key': dict(base, kind='history-differs'), 'detail': 'after the history step %s, on a fresh twin built from the final parameters it %s; %s' % (
+        'returned' if r1[0] == 'ok' else 'raised', 'returned' if r2[0] == 'ok' else 'raised', where)}]
+    if r1[0] == 'raise':
+      return []
+    x1, x2 = r1[1].reshape(-1), r2[1].reshape(-1)
+    v, what = G.violation(twin, x1, m2)
+    if not G.n_box_ok(x1, box2, 1e-6):
+      bd = n_.stack((n_.array(box2[0]), n_.array(box2[1])), axis=1)
+      k = int(n_.argmax(n_.maximum(bd[:, 0] - x1, x1 - bd[:, 1])))
+      v, what = max(v, float(max(bd[k, 0] - x1[k], x1[k] - bd[k, 1]))), 'the CURRENT bounds (%g, %g) of variable %d (value %.6g)' % (bd[k, 0], bd[k, 1], k, x1[k])
+    if v > 1e-6 and v > 10*G.violation(twin, x2, m2)[0]:
+      return [{'key': dict(base, kind='stale-after-setter'), 'detail': 'step on the same tree returned %s which violates %s by %.3g; on a fresh twin it returns %s; %s' % (
+        x1.round(6).tolist(), what, v, x2.round(6).tolist(), where)}]
+    c1, c2 = float(twin.cost(x1, p)), float(twin.cost(x2, p))
+    if abs(c1 - c2) > 1e-5*max(1.0, abs(c2)) or float(n_.abs(x1 - x2).max()) > 1e-4:
+      return [{'key': dict(base, kind='history-differs'), 'detail': 'step on the same tree returns %s (cost %.9g), on a fresh twin %s (cost %.9g); %s' % (
+        x1.round(6).tolist(), c1, x2.round(6).tolist(), c2, where)}]
+    case['_active'] = True
+    return []
 
   def oracle_stub(self, case):
     """property text on stubbed runs: a failure other than status 8 of either call must surface as OptimizationException."""
@@ -341,6 +470,8 @@ class C19(Prop):
     costs = [f(cur)]
     for k in range(case['repeat']):
       arg = cur.reshape(R, n) if case['sshape'] == 'dev' else cur.copy()
+      if k == 0 and case.get('sdtype') == 'int':       # the caller's flow is integer-typed (int ndarray or a plain list of ints)
+        arg = G.int_flow_arg(case['start'], m, case['sshape'], as_list=bool(case.get('slist')))
       # how far from first-order optimal is the current point (independent of the implementation's projection)
       gx = g(cur)
       r = G.lp(gx, dev, N, poly)
@@ -355,8 +486,22 @@ class C19(Prop):
       self.ev['real_steps'] += 1
       try:
         s1, o = S.step(dev, p, arg, alpha)
-      except S.OptimizationException:
+      except S.OptimizationException as e:
         self.ev['raised_optimization_exception'] += 1
+        # from a feasible start step should return; it may raise when SLSQP genuinely fails on the projection — which a reference
+        # projection that differentiates the constraints numerically (their analytic `jac` dropped) then reproduces
+        cons = [{'type': c_['type'], 'fun': c_['fun']} for c_ in dev.constraints]
+        if SG.safe_problem(dev.bounds, cons, True):
+          try:
+            ref = minimize(lambda y: ((y - z)**2).sum(), cur, jac=lambda y: 2*(y - z), method='SLSQP', bounds=dev.bounds, constraints=cons,
+                           options={'ftol': 1e-9, 'maxiter': 200, 'disp': False})
+            ref_ok = bool(ref.success) and G.violation(dev, ref.x, m)[0] < 1e-6
+          except Exception:
+            ref_ok = False
+          if ref_ok:
+            return [{'key': dict(base, kind='raised-on-feasible-start', status=getattr(e.o, 'status', None)),
+                     'detail': 'step %d raised OptimizationException (%s) from a feasible start although the projection problem is solvable: the same SLSQP call with '
+                               'numerically differentiated constraints returns the feasible point %s; %s' % (k + 1, str(getattr(e.o, 'message', e.o))[:60], ref.x.round(6).tolist(), where)}]
         return []
       except Exception as e:
         return [{'key': dict(base, kind='wrong-exception', exc=type(e).__name__),
@@ -401,7 +546,7 @@ class C19(Prop):
     return []
 
   def nontrivial(self, case):
-    return case['kind'] == 'real' and bool(case.get('_active'))
+    return case['kind'] in ('real', 'history') and bool(case.get('_active'))
 
   def canon(self, case):
     import json
